@@ -6,7 +6,7 @@ from harness.common import assume_nested_or_disjoint, sand, sor, snot
 ID = "C03"
 MODULES = ["hta.common.trace_call_stack", "hta.common.call_stack"]
 MUST_NOT_RAISE = True
-BUDGET_S = {"quick": 420, "thorough": 3000}
+BUDGET_S = {"quick": 420, "thorough": 1200}
 TIE_MODE = "adversarial"
 BOUNDS = {
     "quick": "comparator lemmas: endpoints of any 3 events (ids in every order) with unbounded symbolic Int ts >= 0, "
